@@ -426,6 +426,7 @@ def compare(call, rec, lifetime_faulty, world_faulty):
         if a["dtype"] != b["dtype"]:
             same_vals = len(a["values"]) == len(b["values"]) and all(
                 (x in ("NaN", "NaT", None) and y in ("NaN", "NaT", None)) or
+                (x in ("inf", "-inf") and x == y) or
                 (isinstance(x, (int, float)) and isinstance(y, (int, float)) and
                  not isinstance(x, bool) and not isinstance(y, bool) and
                  math.isclose(float(x), float(y), rel_tol=1e-4, abs_tol=1e-6))
